@@ -18,7 +18,7 @@ from ..dotgraph import Graph, split_action
 
 
 def cfg_text(asis, maxcalls, dump=False):
-    return ('CONSTANTS Grammars = {"g1", "g2"}\nNames = {"none", "N"}\nSems = {"s1"}\n'
+    return ('CONSTANTS Grammars = {"g1", "g2", "g3"}\nColliding = {"g3"}\nNames = {"none", "N"}\nSems = {"s1"}\n'
             f'AsIs = {"TRUE" if asis else "FALSE"}\nMaxCalls = {maxcalls}\nMaxHandles = 2\nSPECIFICATION Spec\n'
             + ('' if dump else 'INVARIANT HistoryIndependent\nINVARIANT ModelStable\n') + 'CHECK_DEADLOCK FALSE\n')
 
@@ -53,7 +53,7 @@ def run(tier):
         paths = g.edge_cover_paths(is_final=lambda n: True)
         ck.notes['graph'] = {'states': len(g.states), 'edges': sum(1 for _ in g.edges()), 'histories': len(paths)}
         if tier == 'quick':
-            paths = paths[ck.seed % 12::12]
+            paths = paths[ck.seed % 36::36]
         histories = []
         for start, path in paths:
             calls = [call_of(g.states[n]) for _a, n in path]
